@@ -47,7 +47,7 @@ def do_export(tr, fmt, d, node_ids=None):
             export_to_csv(tr, d / "t.csv", node_ids=node_ids, export_seg=True, seg_path=d / "t.tif")
         else:
             export_to_csv(tr, d / "t.csv", node_ids=node_ids)
-    elif fmt == "geff":
+    elif fmt in ("geff", "geff_na"):
         export_to_geff(tr, d / "g", node_ids=node_ids)
     elif fmt == "geff_ow":
         # the target directory already holds ANOTHER, larger export (more frames, wider frames, other labels);
@@ -88,7 +88,7 @@ def read_back(cfg, tr, fmt, d):
         df = pd.read_csv(d / "t.csv")
         return tracks_from_df(df, node_name_map={"time": "t", "pos": axes, "id": "id", "parent_id": "parent_id",
                                                  "track_id": "track_id"})
-    if fmt == "geff":
+    if fmt in ("geff", "geff_na"):
         # (standard key -> name of the property in the store = the attribute name the tracks use)
         nm = {"time": tr.features.time_key, "pos": axes, "track_id": tr.features.tracklet_key,
               "lineage_id": tr.features.lineage_key}
@@ -98,9 +98,11 @@ def read_back(cfg, tr, fmt, d):
             nm[core.CUSTOM_KEY] = core.CUSTOM_KEY
             kw["node_features"] = {core.CUSTOM_KEY: False}
         if tr.segmentation is not None:
-            nm["area"] = "area"
             kw.update({"segmentation_path": d / "g" / "segmentation"})
-            kw["node_features"] = dict(kw.get("node_features", {}), area=False)
+            if fmt == "geff":
+                nm["area"] = "area"
+                kw["node_features"] = dict(kw.get("node_features", {}), area=False)
+            # ("geff_na": the name map omits the area, which is then recomputed - the positions are still LOADED)
             if tr.scale is not None:
                 kw["scale"] = list(tr.scale)    # positions are in world units: the importer needs the scale
             if "iou" in tr.features and tr.graph.number_of_edges() > 0:
